@@ -661,7 +661,13 @@ func (r *vfMqResRun) check() {
 				}
 				if !ok {
 					sort.Ints(own)
-					if r.violation("routed-qos-not-of-a-live-matching-subscription", "findSubscribers(%s) reports QoS %d for %s, its matching subscriptions have QoS %v", t, subs[d.cid], d.cid, own) {
+					qkey := "routed-qos-not-of-a-live-matching-subscription"
+					for f := range d.dropped {
+						if vfMqMatch(f, t) { // the QoS of a filter the session unsubscribed earlier
+							qkey = "unsubscribed-filter-routed-again"
+						}
+					}
+					if r.violation(qkey, "findSubscribers(%s) reports QoS %d for %s, its matching subscriptions have QoS %v", t, subs[d.cid], d.cid, own) {
 						return
 					}
 				}
